@@ -375,3 +375,40 @@ Theorem C10_program_settings_seen : forall (len_of dig_of : content -> N) r pre 
        g_tsv := Some (ts_version ts); g_tsexp := Some (ts_expires ts) |}.
 Proof. exact program_settings_seen. Qed.
 Print Assumptions C10_program_settings_seen.
+
+(* ---------------------------------------------------------------------------------------- *)
+(* Publication of target files (editor/signed.rs copy_target / link_target: Path::join of the file name on the
+   output directory) against the client's download from a local repository (cache.rs fetch_target: Url::join of the
+   same file name on the targets base URL; transport.rs FilesystemTransport opens the URL path as it stands;
+   Model/Url.v). For every file name that is plain - every '/'-separated component non-empty, free of characters of
+   the URL path percent-encode set and of the backslash, no dot segment in any spelling, no drive letter, the whole
+   no URL of its own - the file that is opened is the file that was put, whatever else the directory holds. The
+   complement of [url_plain] is the class url_encoded_target_name of known_findings.txt; the last statement shows
+   what happens there (the file is not found; encoded dots leave the directory; '?' cuts the name; a colon makes
+   the name a URL). *)
+From ToughV Require Export Model.TName Model.Url.
+From ToughV Require Import Proofs.UrlP.
+
+Theorem C10_published_target_found : forall files base file v,
+  forallb (fun c => negb (is_empty c)) base = true -> url_plain file = true ->
+  url_join base file = UPath (put_comps base file) false
+  /\ fs_fetch (fs_put (put_comps base file) v files) base file = FsFound v.
+Proof. intros files base file v Hb Hp. split; [exact (url_join_plain base file Hb Hp) | exact (put_then_fetch files base file v Hb Hp)]. Qed.
+Print Assumptions C10_published_target_found.
+
+Theorem C10_published_target_undisturbed : forall files base file p w,
+  forallb (fun c => negb (is_empty c)) base = true -> url_plain file = true ->
+  paths_eqb (put_comps base file) p = false ->
+  fs_fetch (fs_put p w files) base file = fs_fetch files base file.
+Proof. exact put_other_keeps. Qed.
+Print Assumptions C10_published_target_undisturbed.
+
+Theorem C10_url_known_class_witnesses :
+  url_plain [97; 32; 98] = false
+  /\ fs_fetch (fs_put (put_comps [[100]] [97; 32; 98]) [1; 2; 3] []) [[100]] [97; 32; 98] = FsNotFound
+  /\ url_join [[100]; [101]] [37; 50; 101; 37; 50; 101; 47; 120] = UPath [[100]; [120]] false
+  /\ url_join [[100]] [97; 63; 98] = UPath [[100]; [97]] false
+  /\ url_join [[100]] [97; 58; 98] = UScheme
+  /\ url_plain [100; 105; 114; 47; 102; 46; 116; 120; 116] = true.
+Proof. vm_compute. repeat split; reflexivity. Qed.
+Print Assumptions C10_url_known_class_witnesses.
